@@ -145,18 +145,17 @@ XalanDOMString::resize(
 
     if (theCount != theOldSize)
     {
-        if (theOldSize == 0)
+        // Resize, with room for the terminating null character.
+        // When the string grows, the old terminating null
+        // character, if there was one, becomes part of the
+        // string, so overwrite it with a copy of theChar.
+        const size_type     theOldDataSize = size_type(m_data.size());
+
+        m_data.resize(theCount + 1, theChar);
+
+        if (theOldDataSize != 0 && theCount >= theOldDataSize)
         {
-            // If the string is of 0 length, resize but add an
-            // extra byte for the terminating byte.
-            m_data.resize(theCount + 1, theChar);
-        }
-        else
-        {
-            // If the string is not of 0 length, resize but
-            // put a copy of theChar where the terminating
-            // byte used to be.
-            m_data.resize(theCount + 1, theChar);
+            m_data[theOldDataSize - 1] = theChar;
         }
 
         m_size = theCount;
